@@ -488,14 +488,15 @@ package leveldb
 
 // Commit: one manifest edit, sequence number published only after the edit succeeded, done only after that.
 //@ func (*Transaction).Commit
-//@   props C11
+//@   props C11 C08
 //@   loop 1
-//@     invariant [C11:nothing-published-while-retrying] calls("(*DB).setSeq") == old(calls("(*DB).setSeq")) && calls("(*Transaction).setDone") == old(calls("(*Transaction).setDone")) && calls("(*session).commit") == old(calls("(*session).commit")) + retry && retry >= 0
-//@     invariant [C11:failed-so-far] retry > 0 ==> cerr != nil
+//@     invariant [C08,C11:nothing-published-while-retrying] calls("(*DB).setSeq") == old(calls("(*DB).setSeq")) && calls("(*Transaction).setDone") == old(calls("(*Transaction).setDone")) && calls("(*session).commit") == old(calls("(*session).commit")) + retry && retry >= 0
+//@     invariant [C08,C11:failed-so-far] retry > 0 ==> cerr != nil
 //@   at before call (*DB).setSeq#1
 //@     assert [C11:publish-only-after-commit] cerr == nil && calls("(*session).commit") > old(calls("(*session).commit"))
+//@     assert [C08,C11:publish-only-after-the-last-commit-attempt-succeeded] lastok("(*session).commit") == last("(*session).commit") && calls("(*session).commit") > old(calls("(*session).commit"))
 //@   at before call (*Transaction).setDone#1
-//@     assert [C11:done-only-after-publication] len(tr.tables) != 0 ==> (cerr == nil && calls("(*DB).setSeq") == old(calls("(*DB).setSeq")) + 1)
+//@     assert [C08,C11:done-only-after-publication] len(tr.tables) != 0 ==> (lastok("(*session).commit") == last("(*session).commit") && calls("(*session).commit") > old(calls("(*session).commit")) && calls("(*DB).setSeq") == old(calls("(*DB).setSeq")) + 1)
 //@   ensures [C11:error-publishes-nothing] result != nil ==> (calls("(*DB).setSeq") == old(calls("(*DB).setSeq")) && calls("(*Transaction).setDone") == old(calls("(*Transaction).setDone")))
 
 // Discard removes every table the transaction created, through the table cache.
@@ -515,6 +516,9 @@ package leveldb
 //@   props C11
 //@   at before call (*Transaction).Commit#1
 //@     assert [C11:commit-only-after-complete-fill] err == nil
+//@   ensures [C11:failed-large-batch-is-discarded] (result != nil && calls("(*DB).OpenTransaction") > old(calls("(*DB).OpenTransaction")) && lastok("(*DB).OpenTransaction") == last("(*DB).OpenTransaction")) ==> calls("(*Transaction).Discard") > old(calls("(*Transaction).Discard"))
+//@ count (*DB).OpenTransaction
+//@ count (*Transaction).Discard
 
 // ---------------------------------------------------------------------------
 // C08: a journal write whose fate is unknown (it failed, but the record may have reached the file) must be
